@@ -449,7 +449,16 @@ def run(ctx):
                 if isinstance(c, ast.Call) and call_name(c) == "sorted":
                     key = [k.value for k in c.keywords if k.arg == "key"]
                     rev = [k.value for k in c.keywords if k.arg == "reverse"]
-                    attr = [x.attr for x in ast.walk(key[0]) if isinstance(x, ast.Attribute)][0] if key else None
+                    attr = None
+                    if key:
+                        # key=lambda loc: loc.first  /  key=attrgetter("first")
+                        k0 = key[0]
+                        if isinstance(k0, ast.Call) and (call_name(k0) or "").split(".")[-1] == "attrgetter" and len(k0.args) == 1 and isinstance(k0.args[0], ast.Constant):
+                            attr = k0.args[0].value
+                        else:
+                            attrs_ = [x.attr for x in ast.walk(k0) if isinstance(x, ast.Attribute)]
+                            ctx.need(len(attrs_) == 1, f"the sort key `{ast.unparse(k0)}` of the location order")
+                            attr = attrs_[0]
                     spec.add((attr, bool(rev and getattr(rev[0], "value", False))))
         return spec
 
